@@ -45,3 +45,10 @@ func VerifChargedBlocked(p *Pipeline) (charged, blocked int) {
 func VerifNewEvent(sourceID SourceID, stream StreamName, offset int64, seq uint64) *Event {
 	return &Event{SourceID: sourceID, streamName: stream, Offset: offset, SeqID: seq, SourceName: "verif"}
 }
+
+// VerifCharged returns the number of charged streams (streams with pending events that no
+// processor has attached yet) and the condition variable the idle processors sleep on. Meant
+// to be read when no goroutine is running (the simulation's idle callback).
+func VerifCharged(p *Pipeline) (int, any) {
+	return len(p.streamer.charged), p.streamer.chargedCond
+}
